@@ -27,6 +27,12 @@ Theorem xml_entities_ok : (forall e, In e xml_entities -> xml_entity_ok e = true
 Proof. split; apply forallb_forall; vm_compute; reflexivity. Qed.
 Print Assumptions xml_entities_ok.
 
+(* xml/table.go AttrRevEntitiesMap: every escape decodes to exactly its byte, and < & TAB LF CR all have one *)
+Theorem xml_attr_rev_entities_ok : (forall e, In e xml_attr_rev_entities -> xml_attr_rev_entity_ok e = true) /\
+                                   xml_attr_rev_complete xml_attr_rev_entities = true.
+Proof. split; [apply forallb_forall|]; vm_compute; reflexivity. Qed.
+Print Assumptions xml_attr_rev_entities_ok.
+
 (* each hex -> keyword pair denotes the same sRGB colour, the keyword is a real CSS colour and not longer *)
 Theorem color_hex_entries_ok : forall e, In e css_shorten_color_hex -> color_hex_ok e = true.
 Proof. apply forallb_forall. vm_compute. reflexivity. Qed.
